@@ -90,6 +90,22 @@ Theorem C03_keyword_table : NoDup (map fst keywords) /\
 Proof. exact (conj keywords_nodup keywords_table_ok). Qed.
 Print Assumptions C03_keyword_table.
 
+(* two facts that pin the strconv.Unquote model down on the common cases (the
+   escape sequences are tied to Go by the string-escape stream of the harness):
+   a quoted lexeme without backslash, quote or newline inside unquotes to its
+   body; a lexeme without closing quote is rejected, i.e. is an ILLEGAL
+   "invalid string" token *)
+Theorem C03_unquote_plain : forall body : list N,
+  Forall (fun c => c <> 34 /\ c <> 92 /\ c <> 10) body ->
+  unquote (34 :: body ++ [34]) = Some body.
+Proof. exact unquote_plain. Qed.
+Print Assumptions C03_unquote_plain.
+
+Theorem C03_unquote_unterminated : forall body : list N,
+  Forall (fun c => c <> 34 /\ c <> 92) body -> unquote (34 :: body) = None.
+Proof. exact unquote_unterminated. Qed.
+Print Assumptions C03_unquote_unterminated.
+
 (* ---------- the defect the model mirrors, and the corrected lexer ---------- *)
 
 Definition ascii_letter (c : N) : bool := ((65 <=? c) && (c <=? 90)) || ((97 <=? c) && (c <=? 122)).
@@ -182,3 +198,10 @@ Example C03_ex_fixed_nul :
   map (fun t => (tt_name (t_type t), t_off t)) (lex_fixed ascii_letter ascii_digit [97; 0; 98]) =
   [(tt_name T_IDENT, 0); (tt_name T_ILLEGAL, 1); (tt_name T_IDENT, 2); (tt_name T_EOF, 3)].
 Proof. vm_compute. reflexivity. Qed.
+
+(* C03_unquote_plain / C03_unquote_unterminated are not vacuous *)
+Example C03_ex_unquote_hyps :
+  Forall (fun c => c <> 34 /\ c <> 92 /\ c <> 10) [97; 233; 128512] /\
+  unquote [34; 97; 233; 128512; 34] = Some [97; 233; 128512] /\
+  unquote [34; 97; 98] = None.
+Proof. split; [repeat constructor; discriminate | split; reflexivity]. Qed.
